@@ -13,6 +13,7 @@ import (
 	"path/filepath"
 	"runtime"
 	"sort"
+	"strings"
 	"sync"
 	"sync/atomic"
 
@@ -104,6 +105,40 @@ func (l *sizedLRU) val(a *act) *sv {
 	return p
 }
 
+// lazy is a list a method returned, kept as the caller holds it: it is put into trace form when the
+// event is written (fin) - for half of the sequential histories and for all overlapping ones that is
+// after the history ended.  What a call reported must still be what it reported then.
+type lazy struct {
+	vals []cache.Value // the very slices the methods returned (not copies)
+	anys []interface{}
+}
+
+func (z *lazy) ids() []int {
+	r := make([]int, 0, len(z.vals)+len(z.anys))
+	for _, x := range z.vals {
+		if v, ok := x.(*sv); ok && v != nil {
+			r = append(r, v.id)
+		} else {
+			r = append(r, -1)
+		}
+	}
+	for _, x := range z.anys {
+		if v, ok := x.(int); ok {
+			r = append(r, v)
+		} else {
+			r = append(r, -1)
+		}
+	}
+	return r
+}
+
+func fin(e tr.E) tr.E {
+	if z, ok := e["r"].(*lazy); ok {
+		e["r"] = z.ids()
+	}
+	return e
+}
+
 func hit(ok bool, v int) tr.E { return tr.E{"ok": ok, "v": v} }
 
 func (l *sizedLRU) do(a act) interface{} {
@@ -113,12 +148,7 @@ func (l *sizedLRU) do(a act) interface{} {
 		l.c.Set(k, l.val(&a))
 		return 0
 	case "setx":
-		rem := l.c.SetAndGetRemoved(k, l.val(&a))
-		r := make([]int, 0, len(rem))
-		for _, x := range rem {
-			r = append(r, x.(*sv).id)
-		}
-		return r
+		return &lazy{vals: l.c.SetAndGetRemoved(k, l.val(&a))}
 	case "setnx":
 		l.c.SetIfAbsent(k, &sv{a.V, a.S})
 		return 0
@@ -152,6 +182,17 @@ func (l *sizedLRU) do(a act) interface{} {
 	case "setcap":
 		l.c.SetCapacity(int64(a.C))
 		return 0
+	case "qlen":
+		return int(l.c.Length())
+	case "qsize":
+		return int(l.c.Size())
+	case "qcap":
+		return int(l.c.Capacity())
+	case "qev":
+		return int(l.c.Evictions())
+	case "qstats":
+		ln, size, capa, ev := l.c.Stats()
+		return tr.E{"len": int(ln), "size": int(size), "cap": int(capa), "ev": int(ev)}
 	}
 	tr.Fatal("unknown op %q", a.Op)
 	return nil
@@ -191,12 +232,7 @@ func (l *tinyLRU) do(a act) interface{} {
 		l.c.Set(k, a.V)
 		return 0
 	case "setx":
-		rem := l.c.SetAndGetRemoved(k, a.V)
-		r := make([]int, 0, len(rem))
-		for _, x := range rem {
-			r = append(r, x.(int))
-		}
-		return r
+		return &lazy{anys: l.c.SetAndGetRemoved(k, a.V)}
 	case "setnx":
 		l.c.SetIfAbsent(k, a.V)
 		return 0
@@ -224,6 +260,17 @@ func (l *tinyLRU) do(a act) interface{} {
 		return 0
 	case "mut":
 		return 0
+	case "qlen":
+		return int(l.c.Length())
+	case "qsize":
+		return int(l.c.Size())
+	case "qcap":
+		return int(l.c.Capacity())
+	case "qev":
+		return int(l.c.Evictions())
+	case "qstats":
+		ln, size, capa, ev := l.c.Stats()
+		return tr.E{"len": int(ln), "size": int(size), "cap": int(capa), "ev": int(ev)}
 	}
 	tr.Fatal("unknown op %q", a.Op)
 	return nil
@@ -276,6 +323,17 @@ func newLRU(sized bool, capa, kind int) lru {
 	return &tinyLRU{tiny.NewLRUCache(int64(capa)), kind}
 }
 
+// pev turns an event whose reply is a recovered panic into an event of its own kind ("panic"): replies
+// have per-operation shapes and a string among them is not comparable in TLC; an event kind the trace
+// specification does not know is rejected where it stands.
+func pev(e tr.E) tr.E {
+	if s, ok := e["r"].(string); ok && strings.HasPrefix(s, "panic:") {
+		e["was"] = e["ev"]
+		e["ev"] = "panic"
+	}
+	return e
+}
+
 // safeDo converts a panic inside the library into an event the spec cannot explain.
 func safeDo(l lru, a act) (r interface{}) {
 	defer func() {
@@ -286,9 +344,14 @@ func safeDo(l lru, a act) (r interface{}) {
 	return l.do(a)
 }
 
+var seqRuns int
+
 func runSeq(w *tr.W, src string, capa int, sized bool, kind int, acts []act) {
 	l := newLRU(sized, capa, kind)
 	w.Emit(tr.E{"ev": "reset", "cap": capa, "sized": sized, "threads": 1, "src": src, "keykind": kind})
+	seqRuns++
+	late := seqRuns%2 == 0 // the events of every second history are written when the history is over
+	var held []tr.E
 	for _, a := range acts {
 		if sl, ok := l.(*sizedLRU); ok && a.Same {
 			if p := sl.last[a.K]; p != nil { // sequential history: no lock needed
@@ -298,7 +361,15 @@ func runSeq(w *tr.W, src string, capa int, sized bool, kind int, acts []act) {
 			}
 		}
 		r := safeDo(l, a)
-		w.Emit(tr.E{"ev": "call", "a": a.rec(), "r": r, "obs": l.obs()})
+		e := pev(tr.E{"ev": "call", "a": a.rec(), "r": r, "obs": l.obs()})
+		if late {
+			held = append(held, e)
+		} else {
+			w.Emit(fin(e))
+		}
+	}
+	for _, e := range held {
+		w.Emit(fin(e))
 	}
 }
 
@@ -353,6 +424,8 @@ func randAct(rng *rand.Rand, nkeys, capa int) act {
 		return act{Op: "del", K: k}
 	case x < 92:
 		return act{Op: "clear"}
+	case x < 96:
+		return act{Op: []string{"qlen", "qsize", "qcap", "qev", "qstats"}[rng.Intn(5)]}
 	default:
 		return act{Op: "setcap", C: rng.Intn(2*capa + 2)}
 	}
@@ -394,7 +467,7 @@ func runConc(w *tr.W, rng *rand.Rand, sized bool, threads, opsPer int) {
 			for _, a := range progs[t] {
 				logf(tr.E{"ev": "inv", "t": t + 1, "a": a.rec()})
 				r := safeDo(l, a)
-				logf(tr.E{"ev": "res", "t": t + 1, "r": r})
+				logf(pev(tr.E{"ev": "res", "t": t + 1, "r": r}))
 			}
 		}(t)
 	}
@@ -402,7 +475,7 @@ func runConc(w *tr.W, rng *rand.Rand, sized bool, threads, opsPer int) {
 	wg.Wait()
 	w.Emit(tr.E{"ev": "reset", "cap": capa, "sized": sized, "threads": threads, "src": "conc", "keykind": 0})
 	for _, e := range evs {
-		w.Emit(e)
+		w.Emit(fin(e))
 	}
 	w.Emit(tr.E{"ev": "final", "obs": l.obs()})
 }
@@ -411,44 +484,77 @@ func runConc(w *tr.W, rng *rand.Rand, sized bool, threads, opsPer int) {
 // of operations on one or two hot keys.  Only rounds in which at least two calls really overlapped
 // in the log are kept (a round without overlap is a sequential history, covered elsewhere); dropping
 // rounds can only lose coverage.  Returns (rounds run, rounds kept).
-func runRaces(w *tr.W, rng *rand.Rand, rounds, keep int) (int, int) {
-	kept, ran := 0, 0
+func runRaces(w *tr.W, rng *rand.Rand, rounds, keep, bulk int) (int, int) {
+	kept, ran, bulkKept := 0, 0, 0
 	ops := []string{"setnx", "set", "setx", "del", "get", "setnx", "set"}
 	for r := 0; r < rounds && kept < keep; r++ {
 		ran++
-		sized := r%2 == 0
+		sized := (r/3)%2 == 0
 		threads := 2 + r%2
 		capa := 1 + rng.Intn(3)
-		l := newLRU(sized, capa, 0)
-		progs := make([][]act, threads)
-		if r%2 == 0 {
+		var pre []act // sequential prefix of the round (part of the recorded history)
+		var progs [][]act
+		switch r % 3 {
+		case 0:
 			// structured pair: every method against every mutator on the same key, on an absent or a
 			// present key (atomicity of each single method)
 			all := []string{"setnx", "set", "setx", "del", "get", "peek", "exist"}
 			mut := []string{"set", "setx", "del", "setnx"}
-			c := r / 2
-			a, b, pre := all[c%len(all)], mut[(c/len(all))%len(mut)], (c/(len(all)*len(mut)))%2 == 1
+			c := r / 3
+			a, b := all[c%len(all)], mut[(c/len(all))%len(mut)]
+			if (c/(len(all)*len(mut)))%2 == 1 {
+				pre = []act{{Op: "set", K: 1, V: 7, S: 1}}
+			}
 			threads = 2
-			progs = progs[:2]
-			if pre {
-				safeDo(l, act{Op: "set", K: 1, V: 7, S: 1})
-			}
-			progs[0] = []act{{Op: a, K: 1, V: 100, S: 1}}
-			progs[1] = []act{{Op: b, K: 1, V: 200, S: 1}}
-			if pre {
-				// the prefill is part of the recorded history
-				progs[0] = append([]act{}, progs[0]...)
-			}
-			_ = pre
-		} else {
+			progs = [][]act{{{Op: a, K: 1, V: 100, S: 1}}, {{Op: b, K: 1, V: 200, S: 1}}}
+		case 1:
+			progs = make([][]act, threads)
 			for t := range progs {
 				n := 1 + rng.Intn(2)
 				for i := 0; i < n; i++ {
 					progs[t] = append(progs[t], act{Op: ops[rng.Intn(len(ops))], K: 1 + rng.Intn(10)/8, V: 100*(t+1) + i, S: 1})
 				}
 			}
+		case 2:
+			if bulkKept >= bulk {
+				continue
+			}
+			// one caller whose single call displaces many entries (a large item, a shrinking
+			// capacity, a run of inserts into a full cache) against callers that only read the
+			// counters: every value a getter returned must be one the ideal cache held at some
+			// instant between that getter's call and return
+			capa = 16 + rng.Intn(48)
+			for k := 1; k <= capa; k++ {
+				pre = append(pre, act{Op: "set", K: k, V: k, S: 1})
+			}
+			var wr []act
+			switch rng.Intn(4) {
+			case 0:
+				wr = []act{{Op: "set", K: capa + 1, V: 900, S: capa}}
+			case 1:
+				wr = []act{{Op: "setcap", C: rng.Intn(3)}}
+			case 2:
+				wr = []act{{Op: "setx", K: capa + 1, V: 900, S: capa - rng.Intn(3)}}
+			default:
+				for i := 1; i <= 6; i++ {
+					wr = append(wr, act{Op: []string{"set", "setx", "setnx"}[rng.Intn(3)], K: capa + i, V: 900 + i, S: 1})
+				}
+			}
+			threads = 3
+			progs = [][]act{wr, nil, nil}
+			q := []string{"qsize", "qev", "qstats", "qlen", "qsize"}
+			for t := 1; t < 3; t++ {
+				n := 6 + rng.Intn(10)
+				for i := 0; i < n; i++ {
+					progs[t] = append(progs[t], act{Op: q[rng.Intn(len(q))]})
+				}
+			}
 		}
-		prefilled := r%2 == 0 && ((r/2)/(7*4))%2 == 1
+		l := newLRU(sized, capa, 0)
+		var preEvs []tr.E
+		for _, a := range pre {
+			preEvs = append(preEvs, fin(pev(tr.E{"ev": "callr", "a": a.rec(), "r": safeDo(l, a)})))
+		}
 		// lock-free log: a global atomic sequence number is drawn before a call starts and after it
 		// returned, so the merged order is consistent with real time; goroutines are released by a
 		// spin barrier so that they really run in parallel.
@@ -470,7 +576,7 @@ func runRaces(w *tr.W, rng *rand.Rand, rounds, keep int) (int, int) {
 				for _, a := range progs[t] {
 					per[t] = append(per[t], sev{atomic.AddInt64(&seq, 1), tr.E{"ev": "inv", "t": t + 1, "a": a.rec()}})
 					r := safeDo(l, a)
-					per[t] = append(per[t], sev{atomic.AddInt64(&seq, 1), tr.E{"ev": "res", "t": t + 1, "r": r}})
+					per[t] = append(per[t], sev{atomic.AddInt64(&seq, 1), pev(tr.E{"ev": "res", "t": t + 1, "r": r})})
 				}
 			}(t)
 		}
@@ -503,12 +609,15 @@ func runRaces(w *tr.W, rng *rand.Rand, rounds, keep int) (int, int) {
 			continue
 		}
 		kept++
+		if r%3 == 2 {
+			bulkKept++
+		}
 		w.Emit(tr.E{"ev": "reset", "cap": capa, "sized": sized, "threads": threads, "src": "race", "keykind": 0})
-		if prefilled {
-			w.Emit(tr.E{"ev": "callr", "a": act{Op: "set", K: 1, V: 7, S: 1}.rec(), "r": 0})
+		for _, e := range preEvs {
+			w.Emit(e)
 		}
 		for _, e := range evs {
-			w.Emit(e)
+			w.Emit(fin(e))
 		}
 		w.Emit(tr.E{"ev": "final", "obs": l.obs()})
 	}
@@ -549,6 +658,8 @@ func runWide(w *tr.W, rng *rand.Rand, variant string, shards, capa, nops int) {
 		switch a.Op {
 		case "setx", "setnx", "clear", "setcap", "mut":
 			a.Op = "set"
+		case "qlen", "qsize", "qcap", "qev", "qstats": // the facades have no getters
+			a.Op = "peek"
 		}
 		if !sized {
 			a.S = 1
@@ -572,9 +683,11 @@ func runWide(w *tr.W, rng *rand.Rand, variant string, shards, capa, nops int) {
 			r = wideDo(sizedF, tinyF, key, a)
 		}()
 		if sh < 0 || sh >= n {
-			tr.Fatal("remap index %d out of range for %v", sh, key)
+			// the router under test left [0, n): an observation, not a harness fault
+			per[0] = append(per[0], tr.E{"ev": "badindex", "a": a.rec(), "n": n})
+			continue
 		}
-		per[sh] = append(per[sh], tr.E{"ev": "callr", "a": a.rec(), "r": r})
+		per[sh] = append(per[sh], pev(tr.E{"ev": "callr", "a": a.rec(), "r": r}))
 	}
 	order := make([]int, 0, n)
 	for i := range per {
@@ -658,7 +771,7 @@ func runWideRaces(w *tr.W, rng *rand.Rand, rounds, keep int) (int, int) {
 						}()
 						r = wideDo(sizedF, tinyF, a.K, a)
 					}()
-					per[t] = append(per[t], sev{atomic.AddInt64(&seq, 1), a.K, tr.E{"ev": "res", "t": t + 1, "r": r}})
+					per[t] = append(per[t], sev{atomic.AddInt64(&seq, 1), a.K, pev(tr.E{"ev": "res", "t": t + 1, "r": r})})
 				}
 			}(t)
 		}
@@ -706,7 +819,7 @@ func runWideRaces(w *tr.W, rng *rand.Rand, rounds, keep int) (int, int) {
 				r = wideDo(sizedF, tinyF, k, a)
 			}()
 			sh := idx(k)
-			byShard[sh] = append(byShard[sh], tr.E{"ev": "callr", "a": a.rec(), "r": r})
+			byShard[sh] = append(byShard[sh], pev(tr.E{"ev": "callr", "a": a.rec(), "r": r}))
 		}
 		for sh, evs := range byShard {
 			if len(evs) == 0 {
@@ -781,6 +894,7 @@ func main() {
 	nwide := flag.Int("nwide", 40, "wide histories")
 	maxops := flag.Int("maxops", 80, "max ops per history")
 	nrace := flag.Int("nrace", 60000, "race rounds to run")
+	nbulk := flag.Int("nbulk", 150, "race rounds of the bulk-writer-against-getters kind to keep")
 	nracekeep := flag.Int("nracekeep", 4000, "race rounds (with real overlap) to keep")
 	nwrace := flag.Int("nwrace", -1, "wide race rounds to run (-1: nrace/4)")
 	nwracekeep := flag.Int("nwracekeep", -1, "wide race rounds to keep (-1: nracekeep/3)")
@@ -823,7 +937,7 @@ func main() {
 	for i := 0; i < *nconc; i++ {
 		runConc(cw, rng, i%2 == 0, 3, 4+i%3)
 	}
-	ran, kept := runRaces(cw, rng, *nrace, *nracekeep)
+	ran, kept := runRaces(cw, rng, *nrace, *nracekeep, *nbulk)
 	if *nwrace < 0 {
 		*nwrace = *nrace / 4
 	}
